@@ -5,7 +5,7 @@ from .. import putcheck
 from ..core import Check, audit
 from ..putfamily import absorb, eval_task, replay_family, world_summary
 from ..runner import driver, jsonable, run_tasks, task_rng
-from ..worldgen import gen_put_world
+from ..worldgen import HOME_NAMES, gen_put_world
 
 CFG = {"oracles": ("C16", "C01"), "violations": ("C16",), "profile": "mixed", "states": False}
 LEVEL_NOTE = ("theorems about putAll hold under every fault oracle; independence (Props/C16Indep): earlier outcomes never "
@@ -14,7 +14,7 @@ LEVEL_NOTE = ("theorems about putAll hold under every fault oracle; independence
               "is refuted by kernel-checked counterexamples; the general case is validated differentially (every argument "
               "alone on a copy of the world)")
 RULE = ("seeded random put worlds with 1-4 arguments mixing trashable entries, dot entries, missing paths, mount points, "
-        "names that are not UTF-8, -f / -i with replies; each multi-argument world is also run one argument at a time "
+        "named pipes, names that are not UTF-8, -f / -i with replies; each multi-argument world is also run one argument at a time "
         "on copies and the per-argument outcome (trashed / untouched, named on stderr, trash directory and recorded Path of the new "
         ".trashinfo) compared; plus forced lists where a mount point (passes the gates, cannot be moved) stands before or "
         "after trashable entries that belong in the same trash directory")
@@ -27,7 +27,7 @@ def forced_world(rng):
     from ..sandbox import MODEL_ROOT as R
     w = W()
     uid = rng.choice([0, 1000])
-    home = w.dir(R + b"/home/u")
+    home = w.dir(R + b"/home/" + rng.choice(HOME_NAMES))
     # (names with characters that mean something to %-formatting, str.format and the shell: the failing argument's own text
     #  must come out in the diagnostic untouched)
     vname = rng.choice([b"/vol1", b"/vol1", b"/100%done", b"/a%sb", b"/%(x)s", b"/{0}", b"/v{}l"])
